@@ -263,6 +263,29 @@ class Color(_enum.Enum):
   BLUE = (3, 4)
 
 
+class Level(_enum.IntEnum):
+  LOW = 1
+  HIGH = 404
+
+
+class Mode(str, _enum.Enum):
+  FAST = 'fast'
+  SLOW = 'slow'
+
+
+class Perm(_enum.IntFlag):
+  R = 4
+  W = 2
+
+
+class MyInt(int):
+  pass
+
+
+class MyStr(str):
+  pass
+
+
 class Plain:
   """A dict-based object registered with register_dict_based_object."""
   _fsim_plain = True
@@ -327,6 +350,11 @@ def base_gen(spec, z=0):
   cfg = build_from_spec(spec)
   cfg.z = z
   return cfg
+
+
+def z0():
+  """Argument-less factory: a fresh object per invocation."""
+  return Rec('z0', {}, 0)
 
 
 def fid_scale(cfg, k=2):
